@@ -24,8 +24,11 @@
      untagged_simple  type_entry.rs:801 assert!: an untagged enum has at most one data-less variant
      from_variants    type_entry.rs:963-1052 convenience_from: one `impl From<V>` per DISTINCT
                       Item / Tuple key (ids); two keys with the same RENDERED type collide (E0119)
-     from_tuple1      same, :1030: Tuple([t]) gets `From<(T,)>` building `Self::V(value.0,)` for
-                      the variant declared `V((T,))`                                   (E0308)
+     from_tuple1      same, :1030: the body of `From<(T,)>` against the variant declared `V((T,))`:
+                      `Self::V(value)` since fix d9b019c (was `Self::V(value.0,)`, E0308); the
+                      conjunct is parametric in that switch and holds for every space now
+     default_tuple1   value.rs:231,306,337: the DEFAULT of a one-element tuple variant is still
+                      rendered `E::V(x)` for `V((T,))`                                 (E0308)
      deref_cycle      output_newtype: `impl Deref`, `impl From<Newtype> for Inner`; a cycle through
                       newtype -> inner and Box -> target edges gives `From<A> for Box<A>` (E0119)
                       and unbounded auto-deref (E0055)
@@ -267,14 +270,52 @@ Definition from_variants_coherent_det (T : space) (d : details) : bool :=
 Definition from_variants_coherent (T : space) : bool :=
   forallb (from_variants_coherent_det T) (named_dets T).
 
-Definition from_tuple1_det (T : space) (d : details) : bool :=
+(* the body of `impl From<(T1,..,Tn)> for E` (type_entry.rs:1030-1060) against the variant as declared
+   by output_variant (enums.rs:756: Tuple([t]) is declared `V((T,))`, Tuple(ts) `V(T1,..,Tn)`).
+   Argument / field shapes: a type id, or the one-component tuple of one. *)
+Definition declared_fields (ts : list id) : list fty :=
+  match ts with
+  | [t] => [FTuple1 t]
+  | _ => map FId ts
+  end.
+
+(* [fixed = true]: since d9b019c a single-item tuple passes `value` (the tuple itself);
+   [fixed = false]: the pinned code passed `value.0, value.1, ..` for every arity *)
+Definition from_body_args (fixed : bool) (ts : list id) : list fty :=
+  match ts with
+  | [t] => if fixed then [FTuple1 t] else [FId t]
+  | _ => map FId ts
+  end.
+
+Definition fty_eqb (a b : fty) : bool :=
+  match a, b with
+  | FId x, FId y | FTuple1 x, FTuple1 y => N.eqb x y
+  | _, _ => false
+  end.
+
+Fixpoint ftys_eqb (a b : list fty) : bool :=
+  match a, b with
+  | [], [] => true
+  | x :: a', y :: b' => fty_eqb x y && ftys_eqb a' b'
+  | _, _ => false
+  end.
+
+Definition from_tuple1_det_cfg (fixed : bool) (T : space) (d : details) : bool :=
   match d with
   | DEnum _ _ _ vs _ _ =>
-      forallb (fun v => match v_det v with VTuple [_] => false | _ => true end) (from_variants T vs)
+      forallb (fun v => match v_det v with
+                        | VTuple ts => ftys_eqb (from_body_args fixed ts) (declared_fields ts)
+                        | _ => true
+                        end) (from_variants T vs)
   | _ => true
   end.
 
-Definition from_tuple1_ok (T : space) : bool := forallb (from_tuple1_det T) (named_dets T).
+Definition from_tuple1_ok_cfg (fixed : bool) (T : space) : bool :=
+  forallb (from_tuple1_det_cfg fixed T) (named_dets T).
+
+(* the code as it is now (fix d9b019c = patches/C01-1.diff) *)
+Definition from_body_fixed : bool := true.
+Definition from_tuple1_ok (T : space) : bool := from_tuple1_ok_cfg from_body_fixed T.
 
 (* newtype -> inner and Box -> target edges only *)
 Definition deref_graph (T : space) : Cycles.graph :=
@@ -432,6 +473,46 @@ Definition prop_default_ok (T : space) (p : prop) : bool :=
 Definition defaults_ok (T : space) : bool :=
   forallb (fun d => forallb (fun np => forallb (prop_default_ok T) (snd np)) (props_of_det d)) (named_dets T).
 
+(* value.rs:231-234, 306-309, 337-340: the default of a Tuple(types) variant is rendered
+   `E::V(e1, .., en)`; for a one-element tuple the variant is declared `V((T,))`, so `E::V(e1)` is
+   ill typed (C06's expr_typed follows the IR, not the declaration, and accepts it).  (E0308) *)
+Definition tuple1_variant_expr (T : space) (e : Value.expr) : bool :=
+  match e with
+  | Value.EVarTuple ty var _ =>
+      match Value.find_named T ty with
+      | Some (DEnum _ _ _ vs _ _) =>
+          match Value.find_variant_ident var vs with
+          | Some vr => match v_det vr with VTuple [_] => true | _ => false end
+          | None => false
+          end
+      | _ => false
+      end
+  | _ => false
+  end.
+
+Definition rendered_defaults (T : space) (d : details) : list Value.expr :=
+  (* property defaults with a bespoke function, and the entry's own default (impl Default) *)
+  flat_map (fun np =>
+    flat_map (fun p => match p_state p with
+                       | PDefault v => match Value.render_prop_default T (fuel_of T) (p_ty p) v with
+                                       | Defaults.ROk (Some e) => [e]
+                                       | _ => []
+                                       end
+                       | _ => []
+                       end) (snd np)) (props_of_det d) ++
+  match d with
+  | DEnum _ (Some v) _ _ _ _ | DStruct _ (Some v) _ _ | DNewtype _ (Some v) _ _ =>
+      match Value.output_det T (Value.output_value T (fuel_of T)) d v with
+      | Defaults.ROk e => [e]
+      | _ => []
+      end
+  | _ => []
+  end.
+
+Definition default_tuple1_ok (T : space) : bool :=
+  forallb (fun d => forallb (fun e => negb (Value.expr_any (tuple1_variant_expr T) e)) (rendered_defaults T d))
+          (named_dets T).
+
 (* ------------------------------------------------------------------ prelude capture *)
 Definition has_item (T : space) (n : string) : bool := mem_ustr (us n) (item_names T).
 
@@ -482,12 +563,12 @@ Definition prelude_result_ok (T : space) : bool :=
 Inductive conjunct :=
 | CItems | CModnames | CDefaultFns | CFields | CVariants | CIdents | CUntaggedSimple
 | CFromVariants | CFromTuple1 | CDerefCycle | CTryFromString | CAcyclic | CDeriveBounds
-| CSerdeRules | CSerdeDefault | CDefaults | CPreludeDefault | CPreludeVec | CPreludeResult.
+| CSerdeRules | CSerdeDefault | CDefaults | CDefaultTuple1 | CPreludeDefault | CPreludeVec | CPreludeResult.
 
 Definition all_conjuncts : list conjunct :=
   [CItems; CModnames; CDefaultFns; CFields; CVariants; CIdents; CUntaggedSimple;
    CFromVariants; CFromTuple1; CDerefCycle; CTryFromString; CAcyclic; CDeriveBounds;
-   CSerdeRules; CSerdeDefault; CDefaults; CPreludeDefault; CPreludeVec; CPreludeResult].
+   CSerdeRules; CSerdeDefault; CDefaults; CDefaultTuple1; CPreludeDefault; CPreludeVec; CPreludeResult].
 
 Definition holds (cls : CharClasses) (T : space) (c : conjunct) : bool :=
   match c with
@@ -507,6 +588,7 @@ Definition holds (cls : CharClasses) (T : space) (c : conjunct) : bool :=
   | CSerdeRules => serde_rules_ok T
   | CSerdeDefault => serde_default_ok T
   | CDefaults => defaults_ok T
+  | CDefaultTuple1 => default_tuple1_ok T
   | CPreludeDefault => prelude_default_ok T
   | CPreludeVec => prelude_vec_ok T
   | CPreludeResult => prelude_result_ok T
@@ -527,6 +609,7 @@ Definition show_conjunct (c : conjunct) : string :=
   | CFromVariants => "from_variants" | CFromTuple1 => "from_tuple1" | CDerefCycle => "deref_cycle"
   | CTryFromString => "tryfrom_string" | CAcyclic => "acyclic" | CDeriveBounds => "derive_bounds"
   | CSerdeRules => "serde_rules" | CSerdeDefault => "serde_default" | CDefaults => "defaults"
+  | CDefaultTuple1 => "default_tuple1"
   | CPreludeDefault => "prelude_default" | CPreludeVec => "prelude_vec" | CPreludeResult => "prelude_result"
   end.
 
